@@ -172,6 +172,27 @@ Definition check_index (c : idx_case) : list string :=
   | OPanic => ["viol:generate-index-panics"]
   end.
 
+(* ---- end to end: the SBOMs of a real `apko build` against the inputs recomputed from the
+        emitted artifacts (layout blobs, flattened layers) ---------------------------------------- *)
+Inductive e2e_case := EImg (c : gen_case) | EIdx (c : idx_case).
+Definition check_e2e (c : e2e_case) : list string :=
+  match c with
+  | EImg g =>
+      (* an emitted image always has a digest and at least one layer *)
+      tag_if (String.eqb (g_image (gc_in g)) "") "viol:e2e-no-image-digest" ++
+      (match gc_obs g with ODoc _ => [] | _ => ["viol:e2e-image-sbom-missing"] end) ++ check_gen g
+  | EIdx x =>
+      (match xc_obs x with
+       | ODoc d =>
+           (* the image elements (targets of VARIANT_OF), in document order, are exactly the
+              recomputed manifest digests in the order of their architecture strings *)
+           let variants := filter (fun p => existsb (fun r => String.eqb (r_related r) (p_id p) && String.eqb (r_type r) "VARIANT_OF") (d_rels d)) (d_pkgs d) in
+           tag_if (negb (list_eqb String.eqb (List.map p_name variants) (List.map (fun h => "sha256:" +++ snd h) (x_images (xc_in x)))))
+                  "viol:e2e-index-images-not-the-built-ones-in-architecture-order"
+       | _ => ["viol:e2e-index-sbom-missing"]
+       end) ++ check_index x
+  end.
+
 (* ---- units: replacePackage / copySBOMElements on arbitrary documents ----------- *)
 Record repl_case := { rc_doc : doc; rc_old : string; rc_new : string; rc_obs : doc }.
 Definition check_repl (c : repl_case) : list string :=
